@@ -242,6 +242,14 @@ fn families(prop: Prop, b: &Bounds, thorough: bool, f: &mut dyn FnMut(&str, &Cfg
 // ---------------------------------------------------------------------------------------
 // generation + lifting
 
+thread_local! {
+    /// grammars whose generated file the lifter could not read consistently: (grammar, algorithm,
+    /// lifter message). They are compiled and run at the end of the exploration: if the compiled
+    /// parser misbehaves the inconsistency is LALRPOP's (a violation), otherwise the lifter's (a
+    /// machinery error).
+    static LIFT_FAILED: std::cell::RefCell<Vec<(Cfg, Algo, String)>> = const { std::cell::RefCell::new(Vec::new()) };
+}
+
 pub fn gen_lift(ctx: &mut Ctx, dir: &Path, g: &Cfg, algo: Algo) -> Option<Lifted> {
     let text = gram::render_unit_extern(g, algo, Codegen::Table);
     let out = drv::generate_in(dir, text.as_bytes(), &GenOpts::algo(algo));
@@ -262,8 +270,83 @@ pub fn gen_lift(ctx: &mut Ctx, dir: &Path, g: &Cfg, algo: Algo) -> Option<Lifted
             Some(l)
         }
         Err(e) => {
-            ctx.machinery(format!("lifter: {} for {}", e, g.describe()));
+            ctx.count("lifter_failures");
+            LIFT_FAILED.with(|l| {
+                let mut l = l.borrow_mut();
+                // at most 20 grammars with `!` and 20 without are confirmed
+                let same_kind = l.iter().filter(|(g2, _, _)| g2.uses_error() == g.uses_error()).count();
+                if same_kind < 20 && !l.iter().any(|(g2, a2, _)| g2 == g && *a2 == algo) {
+                    l.push((g.clone(), algo, e.clone()));
+                } else if same_kind >= 20 {
+                    ctx.count("lifter_failures_beyond_confirmation_cap");
+                }
+            });
             None
+        }
+    }
+}
+
+/// compile the grammars the lifter could not read and judge the compiled parsers directly
+fn confirm_lift_failures(ctx: &mut Ctx, prop: Prop, b: &Bounds, dir: &Path) {
+    let failed: Vec<(Cfg, Algo, String)> = LIFT_FAILED.with(|l| l.borrow_mut().drain(..).collect());
+    if failed.is_empty() {
+        return;
+    }
+    // one batch: the verdict "lifter or LALRPOP" is taken over all of them together
+    for chunk in failed.chunks(40) {
+        let mut units = vec![];
+        let mut jobs = vec![];
+        let mut meta = vec![];
+        for (ci, (g, algo, _)) in chunk.iter().enumerate() {
+            let ui = units.len();
+            units.push(RUnit { g: g.clone(), algo: *algo, cg: Codegen::Table, intern: false });
+            for (entry, _) in g.pubs.iter().enumerate() {
+                for inp in lang::all_inputs(g.terms.max(1), b.n_r) {
+                    jobs.push((ui, entry, inp.clone()));
+                    meta.push((ci, entry, inp));
+                }
+            }
+        }
+        let mut bad = vec![false; chunk.len()];
+        let Some(res) = implr_batch(ctx, dir, &units, &jobs) else {
+            for (g, _, e) in chunk {
+                ctx.machinery(format!("lifter: {} for {} (and the compiled parser could not be built)", e, g.describe()));
+            }
+            continue;
+        };
+        for ((ci, entry, inp), o) in meta.iter().zip(res.iter()) {
+            let (g, algo, _) = &chunk[*ci];
+            let start = g.pubs[*entry];
+            let lang = Lang::new(g, b.n_r + 1);
+            let j = Judge { g, algo: *algo, codegen: Codegen::Table, engine: "implr", start, lang: &lang, input: inp };
+            ctx.count("implr_parses");
+            let before = ctx.p.get("violations_raised");
+            if o.kind == "Uncompiled" {
+                ctx.violation("generated-tables-inconsistent-and-uncompilable", format!("{} [{}]: the generated tables are inconsistent and the module does not compile", g.describe(), algo.name()), j.case(o));
+                bad[*ci] = true;
+                continue;
+            }
+            // whatever the property, a compiled parser that panics / hangs is reported
+            j.c08(ctx, o);
+            let has_err = g.uses_error();
+            match prop {
+                Prop::C01 if !has_err => j.c01(ctx, o),
+                Prop::C04 if !has_err => j.c04(ctx, o),
+                Prop::C05 => j.c05(ctx, o, !has_err),
+                _ => {}
+            }
+            if ctx.p.get("violations_raised") > before {
+                bad[*ci] = true;
+            }
+        }
+        // an inconsistency that some compiled parser of the run exhibits is LALRPOP's; only if no
+        // compiled parser misbehaves is it put down to the lifter
+        if bad.iter().any(|b| *b) {
+            ctx.add("lifter_failures_explained_by_compiled_parser", bad.iter().filter(|b| **b).count() as u64);
+        } else {
+            for (g, _, e) in chunk {
+                ctx.machinery(format!("lifter: {} for {} (the compiled parser behaves; the lifter cannot read this generated file)", e, g.describe()));
+            }
         }
     }
 }
@@ -820,6 +903,10 @@ fn run(ctx: &mut Ctx, prop: Prop) {
     }
     if prop == Prop::C08 {
         c08_lexer(ctx, &dir);
+        if ctx.shard == 1 % ctx.nshards && ctx.begin_case(u64::MAX - 7) {
+            c08_table_width(ctx, &dir);
+            ctx.end_case();
+        }
     }
     // ---- conformance replay + Impl-R oracles on the sub-corpus
     ctx.begin_case(u64::MAX - 1);
@@ -845,6 +932,7 @@ fn run(ctx: &mut Ctx, prop: Prop) {
         conformance(ctx, prop, &b, &dir, &picked, &extra);
     }
     confirm(ctx, prop, &dir, pending);
+    confirm_lift_failures(ctx, prop, &b, &dir);
     ctx.end_case();
 }
 
@@ -1001,6 +1089,10 @@ fn confirm(ctx: &mut Ctx, _prop: Prop, dir: &Path, pending: Vec<PendingConfirm>)
 }
 
 fn replay(ctx: &mut Ctx, prop: Prop, case: &Value, dir: &Path) {
+    if case["family"].as_str() == Some("table-width") {
+        c08_table_width(ctx, dir);
+        return;
+    }
     let g: Cfg = serde_json::from_value(case["cfg"].clone()).expect("cfg");
     let algo = match case["algo"].as_str() {
         Some("lr1") => Algo::Lr1,
@@ -1046,6 +1138,122 @@ fn replay(ctx: &mut Ctx, prop: Prop, case: &Value, dir: &Path) {
         }
     }
     let _ = prop.id();
+}
+
+// ---------------------------------------------------------------------------------------
+// C08 (c): table-width boundaries. The generated tables use the narrowest of i8/i16/i32 that holds
+// the state and production numbers; grammars with a second, tiny entry point and k = 122..=128
+// alternatives put the production count on both sides of the i8 boundary while the entry point's
+// own automaton stays small. Compiled with overflow checks and debug assertions ON (dev-profile
+// lalrpop-util), both backends; oracle: no panic, Ok exactly on the alternatives, table = ascent.
+
+fn c08_table_width(ctx: &mut Ctx, dir: &Path) {
+    let env = match implr::rustc_env_checked() {
+        Ok(e) => e,
+        Err(e) => {
+            ctx.machinery(format!("checked rustc environment: {}", e));
+            return;
+        }
+    };
+    // distinct token strings of length 1..3 over seven terminals, shortest first
+    let mut words: Vec<Vec<u8>> = vec![];
+    for len in 1..=3usize {
+        for code in 0..7usize.pow(len as u32) {
+            let mut c = code;
+            let mut w = vec![];
+            for _ in 0..len {
+                w.push((c % 7) as u8);
+                c /= 7;
+            }
+            words.push(w);
+        }
+    }
+    let gdir = drv::scratch_sub(dir, "wgen");
+    let mut units = vec![];
+    let mut meta = vec![]; // (k, codegen)
+    for k in 122..=128usize {
+        for cg in [Codegen::Table, Codegen::Ascent] {
+            let mut text = String::from("use super::Tok;\n");
+            text.push_str(&gram::grammar_attrs(Algo::Lane, cg));
+            text.push_str("grammar;\n");
+            text.push_str(&gram::extern_block(8));
+            text.push_str("pub N0: () = {\n");
+            for w in &words[..k] {
+                text.push_str(&format!("    {} => (),\n", w.iter().map(|t| format!("\"{}\"", gram::TNAMES[*t as usize])).collect::<Vec<_>>().join(" ")));
+            }
+            text.push_str("};\npub N1: () = { \"h\" => () };\n");
+            let out = drv::generate_in(&gdir, text.as_bytes(), &GenOpts::default());
+            ctx.count("generations");
+            if !out.ok {
+                ctx.machinery(format!("table-width grammar with {} alternatives rejected: {}", k, out.diag.lines().next().unwrap_or("")));
+                continue;
+            }
+            let g2 = Cfg { nts: 2, terms: 8, alts: vec![vec![], vec![]], pubs: vec![0, 1] };
+            units.push(implr::Unit { rs: out.rs.unwrap(), glue: unit_glue(&g2) });
+            meta.push((k, cg));
+        }
+    }
+    let bdir = dir.join("wbuild");
+    let _ = std::fs::remove_dir_all(&bdir);
+    let built = match implr::build(&env, &bdir, &units, "") {
+        Ok(b) => b,
+        Err(e) => {
+            ctx.machinery(format!("table-width build: {}", e));
+            return;
+        }
+    };
+    let mut jobs = vec![];
+    let mut jm = vec![];
+    for (u, (k, _)) in meta.iter().enumerate() {
+        if built.unit_errors[u].is_some() {
+            ctx.violation("table-width-grammar-does-not-compile", format!("grammar with {} alternatives: {:?}", k, built.unit_errors[u]), json!({"alternatives": k}));
+            continue;
+        }
+        // entry 0: every alternative, the first word that is not one, the empty input; entry 1
+        let mut ins: Vec<(usize, Vec<u8>, bool)> = words[..*k].iter().map(|w| (0usize, w.clone(), true)).collect();
+        ins.push((0, words[*k].clone(), false));
+        ins.push((0, vec![], false));
+        ins.push((1, vec![7], true));
+        ins.push((1, vec![0], false));
+        ins.push((1, vec![], false));
+        for (entry, inp, member) in ins {
+            jobs.push(implr::Job { unit: u, entry, input: obs::input_string(&inp) });
+            jm.push((u, entry, inp, member));
+        }
+    }
+    let res = implr::run(&built, &jobs, 60_000);
+    let _ = std::fs::remove_dir_all(&bdir);
+    let mut by: std::collections::HashMap<(usize, usize, Vec<u8>), Obs> = std::collections::HashMap::new();
+    for ((u, entry, inp, member), v) in jm.iter().zip(res.iter()) {
+        let o = Obs::from_json(v);
+        let (k, cg) = meta[*u];
+        ctx.count("parses");
+        ctx.count("table_width_parses");
+        let case = json!({"family": "table-width", "alternatives": k, "codegen": cg.name(), "entry": entry, "input": inp, "observed": o});
+        if o.is_abnormal() {
+            ctx.violation(&format!("{}-{}", cg.name(), o.kind.to_lowercase()), format!("table-width grammar with {} alternatives [{} , overflow checks on] entry N{} input {:?}: {}", k, cg.name(), entry, inp, o.short()), case);
+        } else if o.is_ok() != *member {
+            ctx.violation(&format!("{}-wrong-acceptance", cg.name()), format!("table-width grammar with {} alternatives [{}] entry N{} input {:?}: member={} but {}", k, cg.name(), entry, inp, member, o.short()), case);
+        }
+        by.insert((*u, *entry, inp.clone()), o);
+    }
+    // table vs ascent
+    for (u, (k, cg)) in meta.iter().enumerate() {
+        if *cg != Codegen::Table {
+            continue;
+        }
+        let Some(ua) = meta.iter().position(|(k2, c2)| k2 == k && *c2 == Codegen::Ascent) else { continue };
+        for ((u2, entry, inp, _), _) in jm.iter().zip(res.iter()) {
+            if *u2 != u {
+                continue;
+            }
+            if let (Some(a), Some(b)) = (by.get(&(u, *entry, inp.clone())), by.get(&(ua, *entry, inp.clone()))) {
+                if !a.same_modulo_expected(b) {
+                    ctx.violation("table-ascent-differ", format!("table-width grammar with {} alternatives entry N{} input {:?}: table {} / ascent {}", k, entry, inp, a.short(), b.short()), json!({"family": "table-width", "alternatives": k, "entry": entry, "input": inp}));
+                }
+            }
+        }
+    }
 }
 
 // ---------------------------------------------------------------------------------------
